@@ -558,6 +558,7 @@ def axioms(ts, rounds=1):
                 n = int(nm[5:])
                 h = z3.Q(5, 10 ** (n + 1))
                 new.append(z3.And(t - a <= h, a - t <= h))
+                new += [z3.Implies(a >= 0, t >= 0), z3.Implies(a <= 0, t <= 0)]
         ax += new
         todo = new
     ax += [PI > z3.RealVal('3.14159'), PI < z3.RealVal('3.1416')]
@@ -947,6 +948,7 @@ class Abstractor:
                         if nm.startswith('round') and nm[5:].isdigit():
                             h = z3.Q(5, 10 ** (int(nm[5:]) + 1))
                             s.side.append(z3.And(r - u <= h, u - r <= h))
+                            s.side += [z3.Implies(u >= 0, r >= 0), z3.Implies(u <= 0, r <= 0)]      # rounding never crosses zero
                 else:
                     for args, c in s.atoms.get(nm, []):
                         if len(args) == len(ch) and all(s.equal(x, y) for x, y in zip(args, ch)):
